@@ -303,6 +303,11 @@ def primitives(ctx):
             if knees is not None:
                 p.call('knee_ranking.slope_ranking', pts, knees, F(rng.choice([0.8, 0.9, 0.5])))
                 p.call('knee_ranking.smooth_ranking', pts, knees, E('knee_ranking.ClusterRanking.' + rng.choice(RANKINGS[:3])))
+        elif g == 'cluster' and knees is None or g == 'cluster' and rng.random() < 0.35:
+            # the clustering functions take any x-sorted point array: hand them the shared objects as delivered
+            tgt = [pts, seg] + [P(j) for j in ctx.of_kind('expected', ci)]
+            for fn in rng.sample(CLUSTERINGS, rng.randint(1, 4)):
+                p.call('clustering.' + fn, rng.choice(tgt), F(rng.choice([0.01, 0.05, 0.2, 0.5])))
         elif g == 'cluster' and knees is not None:
             kp = TAKE(pts, knees)
             for fn in rng.sample(CLUSTERINGS, rng.randint(1, 4)):
